@@ -86,6 +86,27 @@ def _gym_env(run):
     return env
 
 
+def _outer_box(env, trace, low, high):
+    """Action wrapper that defines its own (different) action space and maps it
+    affinely onto the inner one; records what the training routine passed."""
+    import gymnasium as gym
+
+    class OuterBox(gym.ActionWrapper):
+        def __init__(self, env):
+            super().__init__(env)
+            self.action_space = gym.spaces.Box(
+                np.asarray(low, np.float32), np.asarray(high, np.float32))
+
+        def action(self, a):
+            trace.ev("outer_action", action=np.array(a, copy=True))
+            lo, hi = self.action_space.low, self.action_space.high
+            ilo, ihi = self.env.action_space.low, self.env.action_space.high
+            frac = (np.asarray(a, np.float64) - lo) / (hi - lo)
+            return np.clip(ilo + frac * (ihi - ilo), ilo, ihi).astype(np.float32)
+
+    return OuterBox(env)
+
+
 def _box_env(run, **kw):
     c = run.cfg
     if c.get("gym_env"):
@@ -93,8 +114,10 @@ def _box_env(run, **kw):
     env = ScriptEnv(run.trace, c["script"], obs_dim=c.get("obs_dim", 3),
                     low=c.get("low", [-1.0]), high=c.get("high", [1.0]),
                     snap_on_step=c.get("snap_on_step", True), **kw)
-    run.env = env
     run.envs = [env]
+    if c.get("outer_box"):
+        env = _outer_box(env, run.trace, *c["outer_box"])
+    run.env = env
     return env
 
 
